@@ -7,10 +7,24 @@
 package limits
 
 //@ unit max_bytes_reader frames=on props=C17 filter=`maxBytesReader\)\.Read$`
+//@ // functional part: every call with room in p and no sticky error asks the underlying body (also when the allowance is
+//@ // used up: that one-byte probe is how a body that is too large is told from one that ends exactly at the limit);
+//@ // what the source delivered within the allowance is passed through with the source's own error, anything beyond it
+//@ // is cut off with ErrMaxBytesExceeded. srcReads counts the source's Read calls, srcN is what the last one returned.
+//@ ghost srcReads int
+//@ ghost srcN int
+//@ extern invoke:(io.Reader).Read
+//@   modifies ghost:srcReads
+//@   ensures srcReads == old(srcReads) + 1 && 0 <= result0 && result0 <= len(p)
 //@ func (*maxBytesReader).Read
 //@   check overflow
 //@   requires l != nil && l.n >= 0
-//@   modifies maxBytesReader.n, maxBytesReader.err
+//@   modifies maxBytesReader.n, maxBytesReader.err, ghost:srcReads, ghost:srcN
+//@   at call invoke:(io.Reader).Read do srcN = result0
+//@   ensures [asks_the_source_every_time] (old(l.err) == nil && len(p) > 0) ==> srcReads == old(srcReads) + 1
+//@   ensures [sticky_error_asks_nobody] (old(l.err) != nil || len(p) == 0) ==> srcReads == old(srcReads)
+//@   ensures [beyond_the_limit_is_cut_off_with_too_large] (old(l.err) == nil && len(p) > 0 && int64(srcN) > old(l.n)) ==> (err == httpserver.ErrMaxBytesExceeded && int64(n) == old(l.n) && l.n == 0)
+//@   ensures [within_the_limit_passes_through] (old(l.err) == nil && len(p) > 0 && int64(srcN) <= old(l.n)) ==> (n == srcN && l.n == old(l.n) - int64(n))
 //@   ensures [inv] l.n >= 0
 //@   ensures [sticky] old(l.err) != nil ==> (n == 0 && l.n == old(l.n))
 //@   ensures [within] old(l.err) == nil ==> (0 <= n && int64(n) <= old(l.n) && n <= len(old(p)))
